@@ -18,13 +18,15 @@ NestedPd == [set |-> TRUE, segs |-> <<"nested">>]
 VARIABLE sc
 \* flags: which of i1 / i2 main includes (and in which order), options on i1, nesting, redefinition, cycle, environments
 Flags == [i1 : BOOLEAN, i2 : BOOLEAN, order12 : BOOLEAN, pd1 : BOOLEAN, ef1 : BOOLEAN, n1from1 : BOOLEAN, n1from2 : BOOLEAN,
-          redef : {"none", "same", "different", "main-different", "main-same"}, cycle : {"none", "n1-main", "n1-i1", "i1-i1"},
+          redef : {"none", "same", "different", "main-different", "main-same", "bare-same", "bare-different", "main-bare-different"},   \* bare: declared with an empty (null) body
+          cycle : {"none", "n1-main", "n1-i1", "i1-i1"},
           parentV : BOOLEAN, dotenv1 : BOOLEAN, cenv : BOOLEAN,
           efn : BOOLEAN, dotenvn : BOOLEAN, pdn : BOOLEAN]     \* on the nested include i1 -> n1: declared env_file, a .env beside n1, project_directory
 Sane(f) == /\ (f.i1 \/ f.i2)
            /\ (f.pd1 => f.i1 /\ ~f.n1from1 /\ f.cycle = "none")          \* with project_directory = root the nested relative include would not resolve
            /\ (f.ef1 => f.i1) /\ (f.n1from1 => f.i1) /\ (f.n1from2 => f.i2)
-           /\ (f.redef \in {"same", "different"} => f.i1 /\ f.i2)
+           /\ (f.redef \in {"same", "different", "bare-same", "bare-different"} => f.i1 /\ f.i2 /\ ~f.order12)
+           /\ (f.redef = "main-bare-different" => f.i1)
            /\ (f.redef \in {"main-different", "main-same"} => f.i1)
            /\ (f.cycle \in {"n1-main", "n1-i1"} => f.n1from1) /\ (f.cycle = "i1-i1" => f.i1)
            /\ (~f.i1 => ~f.dotenv1 /\ ~f.order12 /\ ~f.cenv)
@@ -35,15 +37,19 @@ Universe(f) ==
   [x \in {"main", "i1", "i2", "n1"} |->
      CASE x = "main" -> [dir |-> <<>>, dotenv |-> NoEnv,
                          defs |-> {D("services", "smain", 1), D("volumes", "vmain", 1)}
-                                  \cup (IF f.redef = "main-different" THEN {D("networks", "shared", 2)} ELSE IF f.redef = "main-same" THEN {D("networks", "shared", 1)} ELSE {}),
+                                  \cup (IF f.redef = "main-different" THEN {D("networks", "shared", 2)} ELSE IF f.redef = "main-same" THEN {D("networks", "shared", 1)} ELSE {})
+                                  \cup (IF f.redef = "main-bare-different" THEN {D("networks", "bare", 4)} ELSE {}),
                          includes |-> LET e1 == <<Inc("i1", IF f.pd1 THEN RootPd ELSE NoPd, IF f.ef1 THEN Custom ELSE NoEf)>>  e2 == <<Inc("i2", NoPd, NoEf)>> IN
                                       IF f.i1 /\ f.i2 THEN (IF f.order12 THEN e2 \o e1 ELSE e1 \o e2) ELSE IF f.i1 THEN e1 ELSE e2]
        [] x = "i1" -> [dir |-> <<"inc1">>, dotenv |-> (IF f.dotenv1 THEN DotEnv1 ELSE NoEnv),
-                       defs |-> {D("services", "s1", 1), D("networks", "shared", 1), D("secrets", "sec1", 1), D("configs", "cfg1", 1)}
-                               \cup (IF f.cenv THEN {D("configs", "cfgenv", 3), D("secrets", "secenv", 3)} ELSE {}),   \* variant 3: sourced from an environment variable
+                       defs |-> {D("services", "s1", 1), D("services", "s1x", 1),      \* s1x is written as `extends: {service: s1}`: the same definition
+                                 D("networks", "shared", 1), D("secrets", "sec1", 1), D("configs", "cfg1", 1)}
+                               \cup (IF f.cenv THEN {D("configs", "cfgenv", 3), D("secrets", "secenv", 3)} ELSE {})   \* variant 3: sourced from an environment variable
+                               \cup (IF f.redef \in {"bare-same", "bare-different"} THEN {D("networks", "bare", 4)} ELSE IF f.redef = "main-bare-different" THEN {D("networks", "bare", 2)} ELSE {}),
                        includes |-> (IF f.n1from1 THEN <<Inc("n1", IF f.pdn THEN NestedPd ELSE NoPd, IF f.efn THEN CustomN ELSE NoEf)>> ELSE <<>>) \o (IF f.cycle = "i1-i1" THEN <<Inc("i1", NoPd, NoEf)>> ELSE <<>>)]
        [] x = "i2" -> [dir |-> <<"inc2">>, dotenv |-> NoEnv,
-                       defs |-> {D("services", "s2", 1)} \cup (IF f.redef = "same" THEN {D("networks", "shared", 1)} ELSE IF f.redef = "different" THEN {D("networks", "shared", 2)} ELSE {}),
+                       defs |-> {D("services", "s2", 1)} \cup (IF f.redef = "same" THEN {D("networks", "shared", 1)} ELSE IF f.redef = "different" THEN {D("networks", "shared", 2)} ELSE {})
+                               \cup (IF f.redef = "bare-same" THEN {D("networks", "bare", 4)} ELSE IF f.redef = "bare-different" THEN {D("networks", "bare", 2)} ELSE {}),
                        includes |-> (IF f.n1from2 THEN <<Inc("n1", NoPd, NoEf)>> ELSE <<>>)]
        [] x = "n1" -> [dir |-> <<"inc1", "nested">>, dotenv |-> (IF f.dotenvn THEN DotEnvN ELSE NoEnv),
                        defs |-> {D("services", "sn", 1), D("volumes", "vn", 1)},
@@ -56,8 +62,8 @@ Spec == Init /\ [][Next]_sc
 
 \* laws on the specification
 CycleIsError == (sc.flags.cycle # "none") => IsErrI(sc.exp)
-ConflictIsError == (sc.flags.redef \in {"different", "main-different"}) => IsErrI(sc.exp)
-SameAccepted == (sc.flags.redef \in {"none", "same", "main-same"} /\ sc.flags.cycle = "none" /\ ~(sc.flags.n1from1 /\ sc.flags.n1from2)) => ~IsErrI(sc.exp)
+ConflictIsError == (sc.flags.redef \in {"different", "main-different", "bare-different", "main-bare-different"}) => IsErrI(sc.exp)
+SameAccepted == (sc.flags.redef \in {"none", "same", "main-same", "bare-same"} /\ sc.flags.cycle = "none" /\ ~(sc.flags.n1from1 /\ sc.flags.n1from2)) => ~IsErrI(sc.exp)
 ParentWins == (~IsErrI(sc.exp) /\ sc.flags.parentV) => \A r \in sc.exp.res : r.v \in {"parent", "-"}
 Laws == CycleIsError /\ ConflictIsError /\ SameAccepted /\ ParentWins
 =============================================================================
